@@ -63,4 +63,4 @@ PROPS["C06"] = {
 _PENDING = "check not built yet in this round (planned: Lean model + theorems + differential, see DESIGN.md §5)"
 # entries with "unclaimed": True are runnable (./check Cxx) but not yet claimed in MANIFEST.json
 NOT_APPLICABLE = {p: _PENDING for p in ["C%02d" % i for i in range(1, 21)] if p not in PROPS or PROPS[p].get("unclaimed")}
-HOOK_COMMITS = []
+HOOK_COMMITS = ["62f4a35bbfb762f168515cd7c5338c1c6cff78cc"]
